@@ -39,7 +39,7 @@ def main():
             c = SHIFTS[(i + rep) % len(SHIFTS)] if ck.tier == "quick" else None
             for cc in ([c] if c is not None else SHIFTS):
                 cases.append((dict(sample=k, resample=r, clustering=cl, volume_variation=vv, quant=20, n_particles=16 if (i % 5 == 4) else 8,
-                                   support=0.5 if (i % 5 == 4) else None), cc, 1000 * rep + i))
+                                   support=0.5 if (i % 5 == 4) else None, nan_pocket=0.012 if (i % 7 == 3) else None), cc, 1000 * rep + i))
     violations_seen = 0
     inconclusive = 0
     discarded = 0
